@@ -3,6 +3,7 @@ package ice
 // C04 — connection-state lifecycle and liveness timing.
 
 import (
+	"net"
 	"time"
 )
 
@@ -80,6 +81,10 @@ func verifC04Validate() {
 	a := w.a
 	a.disconnectedTimeout = time.Duration(verifInt(0, int(time.Hour)))
 	a.failedTimeout = time.Duration(verifInt(0, int(time.Hour)))
+	// a lite agent may carry the lite default instead of an explicit
+	// disconnected timeout: the thresholds that count are the stored ones
+	a.lite, a.disconnectedTimeoutExplicit = verifBool(), verifBool()
+	verifAssume(verifImplies(a.lite, !a.isControlling.Load()))
 	silence := time.Duration(verifInt(int(time.Millisecond), int(3*time.Hour)))
 	verifBaseOf(sp.Remote).setLastReceived(verifNow().Add(-silence))
 	verifAssume(verifBaseOf(sp.Remote).lastReceived.Load() != 0) // 0 is the 'never received' sentinel (an instant exactly at timeRef)
@@ -214,6 +219,11 @@ func verifC04Update() {
 	next := ConnectionState(verifInt(int(ConnectionStateNew), int(ConnectionStateClosed)))
 	w, _ := verifC04World(cur, verifChoice(2) == 1)
 	a := w.a
+	// the agent's mux is part of the environment and may be slow: natively its
+	// RemoveConnByUfrag lets other goroutines (the notifier's drainer) run, so
+	// a notification enqueued before the release is observed before it
+	mux := &verifSlowMux{}
+	a.udpMux = mux
 	releasedAtNotify := true
 	a.connectionStateNotifier.connectionStateFunc = func(s ConnectionState) {
 		w.states = append(w.states, s)
@@ -234,6 +244,9 @@ func verifC04Update() {
 		verifAssert(a.connectionState == next, "state-updated")
 	}
 	verifAssert(releasedAtNotify, "failed-notified-only-after-release")
+	if cur != next && next == ConnectionStateFailed {
+		verifAssert(mux.removed == 1, "failed=>ufrag-removed-from-the-mux")
+	}
 	verifReach("done")
 }
 
@@ -259,3 +272,13 @@ func verifC04Restart() {
 	}
 	verifReach("done")
 }
+
+// verifSlowMux: a UDPMux whose RemoveConnByUfrag takes its time.
+type verifSlowMux struct{ removed int }
+
+func (m *verifSlowMux) Close() error { return nil }
+func (m *verifSlowMux) GetConn(string, net.Addr) (net.PacketConn, error) {
+	return nil, errVerifWrite
+}
+func (m *verifSlowMux) RemoveConnByUfrag(string)       { m.removed++; verifSettle() }
+func (m *verifSlowMux) GetListenAddresses() []net.Addr { return nil }
